@@ -893,7 +893,8 @@ def knot_refinement(degree, knotvector, ctrlpts, **kwargs):
             knot_tmp = knot_list[i] + ((knot_list[i + 1] - knot_list[i]) / 2.0)
             rknots.append(knot_list[i])
             rknots.append(knot_tmp)
-        rknots.append(knot_list[i + 1])
+        if knot_list:
+            rknots.append(knot_list[-1])  # the last knot (the only one of a single-knot list)
         knot_list = rknots
 
     # Find how many knot insertions are necessary
